@@ -387,6 +387,11 @@ def install(I):
     from ..interp import Frame, SymbolicComprehension
 
     PL.install(I)
+    # stdlib_models keys its dict.fromkeys model by id() of a transient builtin-method object; that id can be reused by an
+    # unrelated callable created later (observed: an abstract constructor).  Inference never calls dict.fromkeys: drop it.
+    for key, f in list(I.models.items()):
+        if getattr(f, "__name__", "") == "_fromkeys":
+            del I.models[key]
     orig_symbolic_iter = I.symbolic_iter
 
     def symbolic_iter(it):
